@@ -7,41 +7,73 @@ use num_bigint::BigUint;
 use num_traits::{One, Zero};
 use strand::context::{Element, Exponent};
 
+/// the independent arbitrary-precision reference (num-bigint arithmetic in the harness, Fermat inverses):
+/// whenever the implementation returns a value it must be this integer
+fn agree<C: NatCtx>(v: &mut Env<C>, what: &str, args: &[&BigUint], out: &Out, want: Option<BigUint>) {
+    if let (Out::Ok(Val::Nat(got)), Some(w)) = (out, &want) {
+        let tok = v.tok.clone();
+        v.h.check(got == w, || format!("{}({}) = {:x} on {}, integer arithmetic gives {:x}", what, args.iter().map(|a| format!("{:x}", a)).collect::<Vec<_>>().join(", "), got, tok, w));
+    }
+}
+fn inv_ref(a: &BigUint, m: &BigUint) -> Option<BigUint> {
+    if (a % m).is_zero() { None } else { Some(a.modpow(&(m - 2u32), m)) }
+}
+
 fn ops_elem<C: NatCtx>(v: &mut Env<C>, a: &BigUint, b: &BigUint) {
     let (ea, eb) = (v.e(a), v.e(b));
     let ctx = v.ctx.clone();
-    v.case("mul", vec![n(a), n(b)], || Out::Ok(Val::Nat(C::e_val(&ea.mul(&eb)))));
-    v.case("div", vec![n(a), n(b)], || Out::Ok(Val::Nat(C::e_val(&ea.divp(&eb, &ctx)))));
+    let p = v.p.clone();
+    let o = v.case("mul", vec![n(a), n(b)], || Out::Ok(Val::Nat(C::e_val(&ea.mul(&eb)))));
+    agree(v, "mul", &[a, b], &o, Some(a * b));
+    let o = v.case("div", vec![n(a), n(b)], || Out::Ok(Val::Nat(C::e_val(&ea.divp(&eb, &ctx)))));
+    agree(v, "div", &[a, b], &o, inv_ref(b, &p).map(|i| a * i));
 }
 fn ops_elem1<C: NatCtx>(v: &mut Env<C>, a: &BigUint) {
     let ea = v.e(a);
     let ctx = v.ctx.clone();
-    v.case("inv", vec![n(a)], || Out::Ok(Val::Nat(C::e_val(&ea.invp(&ctx)))));
-    v.case("modp", vec![n(a)], || Out::Ok(Val::Nat(C::e_val(&ea.modp(&ctx)))));
+    let p = v.p.clone();
+    let o = v.case("inv", vec![n(a)], || Out::Ok(Val::Nat(C::e_val(&ea.invp(&ctx)))));
+    agree(v, "inv", &[a], &o, inv_ref(a, &p));
+    let o = v.case("modp", vec![n(a)], || Out::Ok(Val::Nat(C::e_val(&ea.modp(&ctx)))));
+    agree(v, "modp", &[a], &o, Some(a % &p));
 }
 fn ops_pow<C: NatCtx>(v: &mut Env<C>, a: &BigUint, x: &BigUint) {
     let (ea, ex) = (v.e(a), v.x(x));
     let ctx = v.ctx.clone();
-    v.case("epow", vec![n(a), n(x)], || Out::Ok(Val::Nat(C::e_val(&ctx.emod_pow(&ea, &ex)))));
+    let p = v.p.clone();
+    let o = v.case("epow", vec![n(a), n(x)], || Out::Ok(Val::Nat(C::e_val(&ctx.emod_pow(&ea, &ex)))));
+    agree(v, "emod_pow", &[a, x], &o, Some(a.modpow(x, &p)));
     // the Element-trait method with the modulus passed explicitly
     let pm = v.e(&v.p);
-    v.case("epow", vec![n(a), n(x)], || Out::Ok(Val::Nat(C::e_val(&ea.mod_pow(&ex, &pm)))));
+    let o = v.case("epow", vec![n(a), n(x)], || Out::Ok(Val::Nat(C::e_val(&ea.mod_pow(&ex, &pm)))));
+    agree(v, "mod_pow", &[a, x], &o, Some(a.modpow(x, &p)));
 }
 fn ops_exp<C: NatCtx>(v: &mut Env<C>, x: &BigUint, y: &BigUint) {
     let (ex, ey) = (v.x(x), v.x(y));
     let ctx = v.ctx.clone();
-    v.case("xadd", vec![n(x), n(y)], || Out::Ok(Val::Nat(C::x_val(&ex.add(&ey)))));
-    v.case("xsub", vec![n(x), n(y)], || Out::Ok(Val::Nat(C::x_val(&ex.sub(&ey)))));
-    v.case("xmul", vec![n(x), n(y)], || Out::Ok(Val::Nat(C::x_val(&ex.mul(&ey)))));
-    v.case("xdiv", vec![n(x), n(y)], || Out::Ok(Val::Nat(C::x_val(&ex.divq(&ey, &ctx)))));
-    v.case("submod", vec![n(x), n(y)], || Out::Ok(Val::Nat(C::x_val(&ex.sub_mod(&ey, &ctx)))));
+    let q = v.q.clone();
+    let o = v.case("xadd", vec![n(x), n(y)], || Out::Ok(Val::Nat(C::x_val(&ex.add(&ey)))));
+    agree(v, "add", &[x, y], &o, Some(x + y));
+    let o = v.case("xsub", vec![n(x), n(y)], || Out::Ok(Val::Nat(C::x_val(&ex.sub(&ey)))));
+    agree(v, "sub", &[x, y], &o, if x >= y { Some(x - y) } else { None });
+    let o = v.case("xmul", vec![n(x), n(y)], || Out::Ok(Val::Nat(C::x_val(&ex.mul(&ey)))));
+    agree(v, "mul", &[x, y], &o, Some(x * y));
+    let o = v.case("xdiv", vec![n(x), n(y)], || Out::Ok(Val::Nat(C::x_val(&ex.divq(&ey, &ctx)))));
+    agree(v, "divq", &[x, y], &o, inv_ref(y, &q).map(|i| x * i));
+    let o = v.case("submod", vec![n(x), n(y)], || Out::Ok(Val::Nat(C::x_val(&ex.sub_mod(&ey, &ctx)))));
+    // for reduced operands: the canonical representative of x - y
+    agree(v, "sub_mod", &[x, y], &o, if *x < q && *y < q { Some((x + &q - y) % &q) } else { None });
 }
 fn ops_exp1<C: NatCtx>(v: &mut Env<C>, x: &BigUint) {
     let ex = v.x(x);
     let ctx = v.ctx.clone();
-    v.case("xinv", vec![n(x)], || Out::Ok(Val::Nat(C::x_val(&ex.invq(&ctx)))));
-    v.case("xmod", vec![n(x)], || Out::Ok(Val::Nat(C::x_val(&ex.modq(&ctx)))));
-    v.case("gpow", vec![n(x)], || Out::Ok(Val::Nat(C::e_val(&ctx.gmod_pow(&ex)))));
+    let (p, q, g) = (v.p.clone(), v.q.clone(), v.g.clone());
+    let o = v.case("xinv", vec![n(x)], || Out::Ok(Val::Nat(C::x_val(&ex.invq(&ctx)))));
+    agree(v, "invq", &[x], &o, inv_ref(x, &q));
+    let o = v.case("xmod", vec![n(x)], || Out::Ok(Val::Nat(C::x_val(&ex.modq(&ctx)))));
+    agree(v, "modq", &[x], &o, Some(x % &q));
+    let o = v.case("gpow", vec![n(x)], || Out::Ok(Val::Nat(C::e_val(&ctx.gmod_pow(&ex)))));
+    agree(v, "gmod_pow", &[x], &o, Some(g.modpow(x, &p)));
 }
 
 /// the laws of the property evaluated on the implementation alone
@@ -190,6 +222,28 @@ pub fn run<C: NatCtx>(v: &mut Env<C>) {
             ops_exp(v, x, y);
             ops_exp(v, y, x);
             ops_exp(v, x, x);
+        }
+        // operands with a special machine representation (zero limbs, single bits, every byte length):
+        // squares as elements (members), the values themselves as exponents and as unreduced operands
+        let quick = v.h.tier == Tier::Quick;
+        let sv = crate::ctxs::structured_values(&p, &mut v.h.rng, 1, if quick { 9 } else { 2 });
+        for (i, s) in sv.iter().enumerate() {
+            if quick && i % 3 != 0 {
+                continue;
+            }
+            let a = (s * s) % &p;
+            let t = &sv[(i * 7 + 1) % sv.len()];
+            if !a.is_zero() {
+                ops_elem1(v, &a);
+                ops_elem(v, &a, &mem[i % mem.len()]);
+                ops_elem(v, &mem[i % mem.len()], &a);
+                ops_pow(v, &a, &(t % &q));
+                ops_pow(v, &mem[i % mem.len()], &(s % &q));
+            }
+            ops_elem1(v, s); // unreduced / non-member operand: modp and the inverse are still defined
+            ops_exp1(v, &(s % &q));
+            ops_exp(v, &(s % &q), &(t % &q));
+            ops_exp1(v, s);
         }
         // unreduced operands where the protocol produces them: products of two members
         let ab = &mem[1] * &mem[2];
